@@ -415,7 +415,9 @@ func (s *session) continueUntilWait(sprint *sprint, currentRun flows.Run, node f
 			numNewSteps++
 
 			if numNewSteps > s.engine.Options().MaxStepsPerSprint {
-				// we've hit the step limit - usually a sign of a loop
+				// we've hit the step limit - usually a sign of a loop.. note that step may belong to a different run if we
+				// have just switched runs, so use the last step of the current run if it has one
+				step, _, _ = currentRun.PathLocation()
 				failRun(sprint, currentRun, step, fmt.Errorf("reached maximum number of steps per sprint (%d)", s.engine.Options().MaxStepsPerSprint))
 			} else {
 				node = currentRun.Flow().GetNode(destination)
